@@ -360,6 +360,42 @@ pub fn all_bytes_stage(rep: &mut Report, env: &AppEnv, stage: &str, bases: &[Vec
     });
 }
 
+/// Every 16-bit word position (both alignments) of a few requests x a value set: quick = 0..511,
+/// every multiple of 256 and every multiple of 256 plus 255, the 22 edge values, each in both
+/// byte orders; thorough = all 65536 values.  Thresholds on a length / size / count field that
+/// nobody varies show up here.
+pub fn all_words_stage(rep: &mut Report, env: &AppEnv, stage: &str, bases: &[Vec<u8>], tcp: bool, thorough: bool) {
+    let mut vals: Vec<u16> = if thorough { (0..=0xffffu32).map(|v| v as u16).collect() } else { (0..512u16).collect() };
+    if !thorough {
+        for k in 0..256u16 {
+            vals.push(k << 8);
+            vals.push((k << 8) | 0xff);
+        }
+        vals.extend(crate::deviate::EDGE16.iter().map(|v| *v as u16));
+        let sw: Vec<u16> = vals.iter().map(|v| v.swap_bytes()).collect();
+        vals.extend(sw);
+        vals.sort();
+        vals.dedup();
+    }
+    let mut plan: Vec<(usize, usize)> = Vec::new();
+    for (b, base) in bases.iter().enumerate() {
+        for p in 0..base.len().saturating_sub(1) {
+            plan.push((b, p));
+        }
+    }
+    let path = if tcp { Path { tcp: true, v6: false, ports: 0 } } else { Path { tcp: false, v6: true, ports: 1 } };
+    let nv = vals.len() as u64;
+    sweep_app(rep, env, stage, &format!("{} requests x every 16-bit word position (both alignments) x {} values", bases.len(), nv), plan.len() as u64 * nv, |i| {
+        let d = unrank(i, &[plan.len() as u64, nv]);
+        let (b, p) = plan[d[0] as usize];
+        let mut r = bases[b].clone();
+        let v = vals[d[1] as usize];
+        r[p] = (v >> 8) as u8;
+        r[p + 1] = v as u8;
+        (path, r)
+    });
+}
+
 /// The envelope of a request does not shape the answer: one complete request over {TCP, UDP} x
 /// {v4, v6} with every single departure of one L3 / L4 header field (all 256 values of 1-byte
 /// fields, edge values of wider ones), once as is and once with the checksums recomputed the
@@ -427,12 +463,18 @@ pub fn window_stage(rep: &mut Report, env: &AppEnv, stage: &str, req: &[u8], nwi
     let c4 = env.cookies[&key_of(&f4)].wrapping_add(1);
     engine::run(
         &env.cfg,
-        nwin + 64,
+        nwin + 64 + 256,
         &opts,
         |i| {
             let mut seg = TcpSeg::new(f4.cport, f4.sport, 1000, c4, F_PSH | F_ACK, req);
             if i < nwin {
                 seg.window = i as u16;
+            } else if i >= nwin + 64 {
+                // URG set, urgent pointer 0..127 (i.e. pointing at every byte of a short request), with
+                // and without ECE next to it
+                let k = i - nwin - 64;
+                seg.urg = (k % 128) as u16;
+                seg.flags |= F_URG | if k >= 128 { 0x40 } else { 0 };
             } else {
                 seg.window = [1024u16, 1460, 4096, 8192, 16384, 32768, 65534, 65535][(i % 8) as usize];
                 seg.urg = [0u16, 1, 5, 100, 1000, 65535, 17, 2][((i - nwin) / 8) as usize];
@@ -449,7 +491,7 @@ pub fn window_stage(rep: &mut Report, env: &AppEnv, stage: &str, req: &[u8], nwi
         },
         &mut rep.sink,
     );
-    rep.stage(stage, &format!("a complete request with every advertised window 0..{} and 8 larger ones x urgent pointer values / URG flag", nwin - 1), nwin + 64, t0);
+    rep.stage(stage, &format!("a complete request with every advertised window 0..{} and 8 larger ones x urgent pointer values / URG flag; URG (and URG|ECE) with every urgent pointer 0..127", nwin - 1), nwin + 64 + 256, t0);
 }
 
 pub fn run_c13(rep: &mut Report, thorough: bool) {
@@ -686,6 +728,9 @@ pub fn run_c14(rep: &mut Report, thorough: bool) {
         });
         crate::props::pairs::pair_histories(rep, &env.cfg, &format!("dns-pair-histories-{}", tag), &crate::props::pairs::datagram_variants("dns", &[appdns::build_query(5, 0x0100, &q1), appdns::build_query(6, 0, &[(dns_labels("a.b"), 1, 1), (dns_labels("c"), 1, 1)]), appdns::build_query(7, 0x0100, &[(dns_labels("version.bind"), 16, 3)])]));
         envelope_stage(rep, &env, &format!("dns-envelope-{}", tag), &appdns::build_query(5, 0x0100, &q1), false, true);
+        if env.cfg.self_ips.is_empty() || thorough {
+            all_words_stage(rep, &env, &format!("dns-all-words-{}", tag), &[appdns::build_query(5, 0x0100, &[(dns_labels("ab.c"), 1, 1)])], false, thorough);
+        }
         all_bytes_stage(rep, &env, &format!("dns-all-byte-values-{}", tag), &[appdns::build_query(5, 0x0100, &[(dns_labels("ab.c"), 1, 1)]), appdns::build_query(0x1234, 0, &[(dns_labels("x"), 1, 1), (dns_labels("y"), 1, 1)])], false, true);
         // destination addresses
         let t0 = std::time::Instant::now();
@@ -1064,8 +1109,25 @@ pub fn run_c15(rep: &mut Report, thorough: bool) {
             long_conv_stage(rep, &env, &format!("stun-long-connection-{}", tag), Some(big.clone()), &msgs, if thorough { 1500 } else { 300 });
             window_stage(rep, &env, &format!("stun-window-{}", tag), &big, 256);
             envelope_stage(rep, &env, &format!("stun-envelope-{}", tag), &stun_magic(&[], &ID12), true, true);
+            if env.cfg.self_ips.is_empty() || thorough {
+                all_words_stage(rep, &env, &format!("stun-all-words-{}", tag), &[stun_magic(&stun_attr(3, &[0, 0, 0, 2]), &ID12), stun_classic(&stun_attr(3, &[0, 0, 0, 2]), &ID16)], false, thorough);
+            }
             all_bytes_stage(rep, &env, &format!("stun-all-byte-values-{}", tag), &[stun_magic(&[], &ID12), stun_classic(&stun_attr(3, &[0, 0, 0, 2]), &ID16), stun_magic(&stun_attr(0x8022, b"abcd"), &ID12)], true, true);
             envelope_stage(rep, &env, &format!("stun-envelope-change-{}", tag), &stun_classic(&stun_attr(3, &[0, 0, 0, 2]), &ID16), false, true);
+            // every assigned attribute type (RFC 3489 / 5389 / 5780 ranges) with WELL-FORMED values
+            // of the shapes those attributes have (IPv4 / IPv6 address with another port, flag
+            // word, text), in the short form and in the >= 256-byte form the stream matcher
+            // identifies, before and after the padding attribute: only CHANGE-REQUEST may move the
+            // answer, and only by one port
+            {
+                let shapes = stun_attr_shapes();
+                let dims = [shapes.len() as u64, 3];
+                sweep_app(rep, &env, &format!("stun-attr-shapes-{}", tag), "99 attribute types (0..0x30, 0x8000..0x8030, 3 more) x 7 well-formed value shapes (IPv4 address:port, IPv6 address:port, flag words 2 and 6, port word, text, empty) x {short message, >= 256 bytes with the attribute first, with the attribute last} x {UDP v4, UDP v6, TCP}", product(&dims), |i| {
+                    let d = unrank(i, &dims);
+                    let p = [pu4, pu6, Path { tcp: true, v6: false, ports: 1 }][d[1] as usize];
+                    (p, shapes[d[0] as usize].clone())
+                });
+            }
         }
         if thorough {
             let bases: Vec<Vec<u8>> = vec![stun_magic(&[], &ID12), stun_classic(&stun_attr(3, &[0, 0, 0, 2]), &ID16), stun_magic(&[stun_attr(0x8022, b"abcd"), stun_attr(3, &[0, 0, 0, 2])].concat(), &ID12)];
@@ -1224,6 +1286,9 @@ pub fn run_c16(rep: &mut Report, thorough: bool) {
         }
         window_stage(rep, &env, &format!("rpc-window-getport-{}", tag), &apprpc::with_record_mark(&apprpc::build_call(0x61626364, 2, 100000, 2, 3, &[], &[])), 256);
         window_stage(rep, &env, &format!("rpc-window-dump-{}", tag), &apprpc::with_record_mark(&apprpc::build_call(0x61626364, 2, 100000, 4, 4, &[], &[])), 256);
+        if env.cfg.self_ips.is_empty() || thorough {
+            all_words_stage(rep, &env, &format!("rpc-all-words-{}", tag), &[apprpc::build_call(0x61626364, 2, 100000, 2, 3, &[], &[]), apprpc::build_call(0x61626364, 2, 100000, 4, 4, &[1, 2, 3, 4], &[5, 6, 7, 8])], false, thorough);
+        }
         all_bytes_stage(rep, &env, &format!("rpc-all-byte-values-udp-{}", tag), &[apprpc::build_call(0x61626364, 2, 100000, 2, 3, &[], &[]), apprpc::build_call(0x61626364, 2, 100000, 4, 4, &[1, 2, 3, 4], &[5, 6, 7, 8])], false, true);
         all_bytes_stage(rep, &env, &format!("rpc-all-byte-values-tcp-{}", tag), &[apprpc::with_record_mark(&apprpc::build_call(0x61626364, 2, 100000, 3, 3, &[], &[]))], true, false);
         envelope_stage(rep, &env, &format!("rpc-envelope-tcp-{}", tag), &apprpc::with_record_mark(&apprpc::build_call(0x61626364, 2, 100000, 3, 3, &[], &[])), true, false);
@@ -1481,6 +1546,11 @@ pub fn run_c17(rep: &mut Report, thorough: bool) {
             window_stage(rep, &env, &format!("smb2-window-{}", tag), &pls[1], 512);
             envelope_stage(rep, &env, &format!("smb1-envelope-{}", tag), &pls[0], true, true);
             all_bytes_stage(rep, &env, &format!("smb-all-byte-values-{}", tag), &pls, true, false);
+            if env.cfg.self_ips.is_empty() || thorough {
+                let mut w = pls.clone();
+                w.push(appsmb::smb1_session_setup(&Smb1Hdr::new(0x73), &[7; 8]));
+                all_words_stage(rep, &env, &format!("smb-all-words-{}", tag), &w, true, thorough);
+            }
             envelope_stage(rep, &env, &format!("smb2-envelope-{}", tag), &pls[1], true, true);
         }
         let dims = [2u64, 2, 65536];
@@ -1759,6 +1829,9 @@ pub fn run_c18(rep: &mut Report, thorough: bool) {
             window_stage(rep, &env, &format!("ssh-window-{}", tag), b"SSH-2.0-w\r\n", 256);
             window_stage(rep, &env, &format!("ghost-window-{}", tag), &ghost_request(), 256);
             envelope_stage(rep, &env, &format!("ssh-envelope-{}", tag), b"SSH-2.0-e\r\n", true, true);
+            if env.cfg.self_ips.is_empty() || thorough {
+                all_words_stage(rep, &env, &format!("ssh-ghost-all-words-{}", tag), &[b"SSH-2.0-ab c\r\n".to_vec(), ghost_request()], true, thorough);
+            }
             all_bytes_stage(rep, &env, &format!("ssh-ghost-all-byte-values-{}", tag), &[b"SSH-2.0-ab c\r\n".to_vec(), b"SSH-1.99-x\n".to_vec(), ghost_request()], true, true);
             envelope_stage(rep, &env, &format!("ghost-envelope-{}", tag), &ghost_request(), true, true);
         }
